@@ -3,9 +3,11 @@ package main
 // Family dot (C18): graphout.DotString / Dot.Sprint against spec/graph/Dot.tla.
 
 import (
+	"bytes"
 	"encoding/json"
 	"fmt"
 	"io"
+	"os"
 	"reflect"
 	"regexp"
 	"strconv"
@@ -154,6 +156,33 @@ func dotReplay(in io.Reader, raw bool, args []string) (*Summary, error) {
 			return s[k:] + s[:k]
 		}
 		doc := graphout.Dot{Label: label}.Sprint(graph.IntGraph(adj))
+		// the three entry points write the same document: Fprint into a buffer, and Print onto standard output (captured in a
+		// file; on a long path graph too, whose document exceeds any buffer a writer might keep)
+		dotN++
+		if dotN%40 == 1 {
+			var buf bytes.Buffer
+			if err := (graphout.Dot{Label: label}).Fprint(&buf, graph.IntGraph(adj)); err != nil || buf.String() != doc {
+				sum.viol("Dot-Fprint", c, "Fprint wrote (err %v)\n%s\n--- Sprint returns\n%s", err, buf.String(), doc)
+			}
+			graphs := []graph.Graph{graph.IntGraph(adj)}
+			if dotN%400 == 1 {
+				long := make(graph.IntGraph, 1500)
+				for i := 0; i+1 < len(long); i++ {
+					long[i] = []int{i + 1}
+				}
+				graphs = append(graphs, long)
+			}
+			for _, g := range graphs {
+				want := graphout.Dot{Label: label}.Sprint(g)
+				got, err := capturePrint(graphout.Dot{Label: label}, g)
+				sum.Checks++
+				if err != nil {
+					sum.viol("machinery", c, "capturing standard output: %v", err)
+				} else if got != want {
+					sum.viol("Dot-Print", c, "Print wrote %d bytes to standard output, the document has %d; Print wrote:\n%.300s", len(got), len(want), got)
+				}
+			}
+		}
 		if msg := dotDocCheck(doc, adj, label); msg != "" {
 			sum.viol("Dot", c, "%s; document:\n%s", msg, doc)
 		}
@@ -188,4 +217,27 @@ func dotReplay(in io.Reader, raw bool, args []string) (*Summary, error) {
 		}
 	})
 	return sum, err
+}
+
+var dotN int
+
+// capturePrint runs d.Print(g) with os.Stdout pointing at a scratch file and returns what arrived there.
+func capturePrint(d graphout.Dot, g graph.Graph) (string, error) {
+	f, err := os.CreateTemp("", "dotprint")
+	if err != nil {
+		return "", err
+	}
+	defer os.Remove(f.Name())
+	defer f.Close()
+	perr := func() error {
+		saved := os.Stdout
+		os.Stdout = f
+		defer func() { os.Stdout = saved }() // also when Print panics (the caller reports the panic)
+		return d.Print(g)
+	}()
+	if perr != nil {
+		return "", perr
+	}
+	b, err := os.ReadFile(f.Name())
+	return string(b), err
 }
